@@ -259,18 +259,18 @@ func wsdecodeDrain(r *rng, w *bufio.Writer) {
 func wsdecodeEnum(args []string, w *bufio.Writer) {
 	limit := atoi(args[0]) // compositions are enumerated for strings up to this length
 	strs := []string{
-		"8100",                     // empty text
-		"810548656c6c6f",           // "Hello"
-		"818537fa213d7f9f4d5158",   // masked "Hello"
-		"0103486578" + "8002abcd",  // fragmented
+		"8100",                       // empty text
+		"810548656c6c6f",             // "Hello"
+		"818537fa213d7f9f4d5158",     // masked "Hello"
+		"0103486578" + "8002abcd",    // fragmented
 		"8900" + "8a00" + "880203e8", // ping, pong, close
-		"827e00051122334455",       // 16-bit form of a short length
-		"827f00000000000000021122", // 64-bit form of a short length
-		"827f8000000000000000",     // 2^63
+		"827e00051122334455",         // 16-bit form of a short length
+		"827f00000000000000021122",   // 64-bit form of a short length
+		"827f8000000000000000",       // 2^63
 		"82ffffffffffffffffff01020304",
-		"827e00c9",                 // 201 > max 200
-		"82fe00c801020304",         // masked 200, body missing
-		"f1050102030405" + "7200",  // rsv bits, reserved opcodes
+		"827e00c9",                // 201 > max 200
+		"82fe00c801020304",        // masked 200, body missing
+		"f1050102030405" + "7200", // rsv bits, reserved opcodes
 	}
 	k := 0
 	emit := func(segs [][]byte) {
